@@ -9,10 +9,9 @@ Model of the entry codec of `cloudsync/sync/state.py`:
 * `SyncEntry.serialize` / `deserialize` (370-404).
 
 msgpack is modelled at the *value* level only (`Val`): `msgpack.dumps(x, use_bin_type=True)` followed by
-`msgpack.loads(b, use_list=False, raw=False)` is `wire`: it fails with `OverflowError` for integers
-outside [-2^63, 2^64), fails with `ValueError` when a map key is neither `str` nor `bytes`
-(`strict_map_key=True` is the default of the installed msgpack), and otherwise returns the same value
-with every Python `list` turned into a `tuple` (`norm`).  The byte-level encoding is third-party and
+`msgpack.loads(b, use_list=False, raw=False, strict_map_key=False)` is `wire`: it fails with `OverflowError`
+for integers outside [-2^63, 2^64) and otherwise returns the same value with every Python `list` turned
+into a `tuple` (`norm`); every dict key type that `dumps` writes is accepted back (`strict_map_key=False`).  The byte-level encoding is third-party and
 trusted.  A stored row is identified with `norm v` (two values have the same bytes iff they agree up
 to the list/tuple tag).
 
@@ -21,8 +20,7 @@ import: this file is linked into the driver executable.
 -/
 namespace CS.Codec
 
-/-- dict keys.  Only `str`/`bytes` keys survive `loads`; the others are what a provider *could*
-    put into a dict-typed hash (`other` stands for None/bool/float/tuple keys, an opaque token). -/
+/-- dict keys (`other` stands for None/bool/float/tuple keys, an opaque token) -/
 inductive Key where
   | str (s : String)
   | bin (hex : String)
@@ -108,11 +106,6 @@ def Key.dumpsOk : Key → Bool
   | .int i => intOk i
   | _ => true
 
-def Key.loadsOk : Key → Bool
-  | .str _ => true
-  | .bin _ => true
-  | _ => false
-
 mutual
 /-- `msgpack.dumps` succeeds (no integer out of the 64 bit range) -/
 def dumpsOk : Val → Bool
@@ -126,20 +119,6 @@ def dumpsOkList : List Val → Bool
 def dumpsOkKvs : List (Key × Val) → Bool
   | [] => true
   | (k, v) :: r => k.dumpsOk && dumpsOk v && dumpsOkKvs r
-end
-
-mutual
-/-- `msgpack.loads` succeeds (`strict_map_key`: every map key is `str` or `bytes`) -/
-def loadsOk : Val → Bool
-  | .arr _ xs => loadsOkList xs
-  | .map kvs => loadsOkKvs kvs
-  | _ => true
-def loadsOkList : List Val → Bool
-  | [] => true
-  | x :: xs => loadsOk x && loadsOkList xs
-def loadsOkKvs : List (Key × Val) → Bool
-  | [] => true
-  | (k, v) :: r => k.loadsOk && loadsOk v && loadsOkKvs r
 end
 
 mutual
@@ -170,9 +149,8 @@ inductive Err where
 def dumps (v : Val) : Except Err Val :=
   if dumpsOk v then .ok (norm v) else .error .overflow
 
-/-- `msgpack.loads(row, use_list=False, raw=False)` -/
-def loads (row : Val) : Except Err Val :=
-  if loadsOk row then .ok (norm row) else .error .value
+/-- `msgpack.loads(row, use_list=False, raw=False, strict_map_key=False)`: total on stored rows -/
+def loads (row : Val) : Except Err Val := .ok (norm row)
 
 /-- dumps then loads -/
 def wire (v : Val) : Except Err Val :=
@@ -524,7 +502,7 @@ lists with dict semantics (assignment to an existing key keeps its position, a n
 program; the harness injects an insertion-ordered `set` into the module).
 Exceptions leave the state as it is at the raise (`M` threads the state through errors).
 Providers: `oid_is_path = False`, case sensitive, `prioritize` = the default `lambda: 0`.
-Ghost fields (`silent`, `gone`, `goneTouched`) are written, never read, by the non-ghost code.
+The ghost field `silent` is written, never read, by the non-ghost code.
 -/
 namespace CS.Persist
 open CS.Codec CS.Storage
@@ -590,12 +568,10 @@ structure St where
   punt1 : Int
   -- ghost
   silent : List Nat      -- entries changed without reaching `_dirtyset.add` since they were last dirtied
-  gone : List Nat        -- entries whose row `_storage_update` deleted (they keep the stale storage id)
-  goneTouched : Bool     -- `_storage_update` was run on an entry of `gone`
 
 def St.init (b : Backend) : St :=
   { ents := [], ix0 := ⟨[], []⟩, ix1 := ⟨[], []⟩, changeset := [], dirty := [], store := b,
-    punt0 := 1, punt1 := 1, silent := [], gone := [], goneTouched := false }
+    punt0 := 1, punt1 := 1, silent := [] }
 
 /-- state threaded through exceptions -/
 def M (α : Type) := St → Except HErr α × St
@@ -691,7 +667,7 @@ def addInt (v : Val) (n : Int) : Option Val :=
 section hooks
 variable (rec : Call → M Unit)
 
-/-- state.py:848-876 `_update_kids` (the `oid_is_path` branch is outside the model).
+/-- state.py `_update_kids` (the `oid_is_path` branch is outside the model).
     `get_kids` is a generator: the set of entries is taken once, each entry's path is read when
     its turn comes. -/
 def updateKids (i : Nat) (sd : Sd) (priorPath path : Val) : M Unit := do
@@ -804,7 +780,8 @@ def updatedChanged (i : Nat) (sd : Sd) (v : Val) : M Unit := do
   if (v.truthy && me.oid.truthy) || (ot.changed.truthy && ot.oid.truthy) then modChangeset (sadd · i)
   else do
     modChangeset (sdiscard · i)
-    if ot.changed.truthy && !ot.oid.truthy then rec (.side i (!sd) (.plain .changed (.val (.int 0)))) else pure ()
+    -- `ent[other_side(side)]._changed = 0`: a direct write (the hooked one re-entered this branch)
+    if ot.changed.truthy && !ot.oid.truthy then rawSide i (!sd) fun x => { x with changed := .int 0 } else pure ()
 
 /-- state.py:794-800, key `priority` -/
 def updatedPriority (i : Nat) (v : Int) : M Unit := do
@@ -829,7 +806,7 @@ def updatedSide (i : Nat) (sd : Sd) (w : SideWrite) : M Unit := do
   match w with
   | .plain .path (.val v) => changePath rec i sd v
   | .plain .oid (.val v) => changeOid rec i sd v
-  | .plain .changed (.val v) => updatedChanged rec i sd v
+  | .plain .changed (.val v) => updatedChanged i sd v
   | _ => pure ()
   markDirty i
 
@@ -918,12 +895,11 @@ def storeOp (op : Op Val) : M (Res Val) := fun s =>
 def storageUpdate (i : Nat) : M Unit := do
   let e ← getEnt i
   match e.storageId with
-  | some sid => do
-    let st ← getSt
-    if st.gone.contains i then modSt fun s => { s with goneTouched := true } else pure ()
+  | some sid =>
     if e.isTrash then do
       let _ ← storeOp (.delete tag (some sid))
-      modSt fun s => { s with gone := sadd s.gone i }
+      -- the row is gone: `ent._storage_id = None` (direct write)
+      rawEnt i fun x => { x with storageId := none }
     else
       match e.row with
       | .error err => raise (.py err)
@@ -958,14 +934,15 @@ def storageCommit : M Unit := do
 def indexLoaded (st : St) (i : Nat) (e : Entry) : St :=
   let one := fun (st : St) (sd : Sd) =>
     let s := e.side sd
-    let ix := st.ix sd
-    let paths := if dhas ix.paths s.path then ix.paths else dset ix.paths s.path []
-    let paths := dset paths s.path (dset ((dget paths s.path).getD []) s.oid i)
-    let st := st.setIx sd { oids := dset ix.oids s.oid i, paths := paths }
-    if s.changed.truthy then { st with changeset := sadd st.changeset i } else st
+    if s.oid.isNone then st      -- a side without an id is not indexed and its stamp is not pending
+    else
+      let ix := st.ix sd
+      let paths := if s.path.truthy then dset ix.paths s.path (dset ((dget ix.paths s.path).getD []) s.oid i) else ix.paths
+      let st := st.setIx sd { oids := dset ix.oids s.oid i, paths := paths }
+      if s.changed.truthy then { st with changeset := sadd st.changeset i } else st
   one (one st false) true
 
-/-- state.py:725-743: rebuild a state from the rows of `tag`; a row that fails to load is deleted -/
+/-- the loader in `SyncState.__init__`: rebuild a state from the rows of `tag`; a row that fails to load is deleted -/
 def loadRows : List (Nat × Val) → St → St
   | [], st => st
   | (eid, row) :: rest, st =>
